@@ -202,10 +202,9 @@ func (u *Upstream) waitToSendAllDataPointsAndReceiveAllAck(ctx context.Context) 
 		return errors.Errorf("failed to flush chunk: %w", err)
 	}
 
-	alreadyReceivedLastSentAck := atomic.LoadUint32(&u.maxSequenceNumberInReceivedUpstreamChunkResults) == u.sequence.CurrentValue()
-	if alreadyReceivedLastSentAck {
-		return nil
-	}
+	// (No shortcut on "the newest chunk has been acknowledged": acks may arrive out of order, and
+	// Close must wait for the results of the older chunks too. The loop below returns at once
+	// when nothing is outstanding.)
 
 	// wake the wait below when the caller's context or the close timeout ends
 	wake := func() {
